@@ -1,6 +1,6 @@
 (* Comparison helpers for the generated correspondence cases of C03 / C16 (no proofs). *)
 From Coq Require Import String Ascii List Bool Arith.
-From LV Require Import Base.Prelude Forest.Sppf Forest.Prio Shape.Chain Shape.Spec Shape.Transform Shape.Ebnf Shape.EarleyLeg Shape.Cnf Shape.CykParse.
+From LV Require Import Base.Prelude Forest.Sppf Forest.Prio Shape.Chain Shape.Spec Shape.Transform Shape.Ebnf Shape.EarleyLeg Shape.Cnf Shape.CykParse Shape.CnfLink.
 Import ListNotations.
 
 Fixpoint stree_eqb (a b : stree) : bool :=
@@ -129,11 +129,18 @@ Definition earley_check (c : earley_case) : bool :=
 (* CYK leg.  The CNF grammar cyk.to_cnf built (as a set) against the model *)
 Definition cset_incl (a b : list crule) : bool := forallb (fun x => existsb (crule_eqb x) b) a.
 Definition cnfg_case := (list rrec * list crule)%type.
+(* ... and the hypothesis of C03_cyk_engine evaluated on both: canonical rules only, all enumerated canonical
+   rules present, acyclic unit rules (CnfLink.closure_check), CNF shape *)
 Definition cnfg_check (c : cnfg_case) : bool :=
   match to_cnf 400 (fst c) with
   | Ok g => cset_incl g (snd c) && cset_incl (snd c) g
+            (* closure_check is invariant under set equality: evaluated once, on the grammar lark built *)
+            && closure_check (fst c) (snd c) && forallb cnf_shape (snd c)
   | _ => false
   end.
+(* the same alone *)
+Definition closure_case_check (c : cnfg_case) : bool :=
+  closure_check (fst c) (snd c) && forallb cnf_shape (snd c).
 (* lenient form: lark's grammar is a subset of the model's and lacks only unit-skip rules (cyk.UnitSkipRule
    equality ignores lhs/rhs, so _remove_unit_rule can drop a second rule: known finding) *)
 Definition cnfg_check_lenient (c : cnfg_case) : bool :=
@@ -208,11 +215,12 @@ Definition parse_check (c : parse_case) : bool :=
           cells.
 
 Inductive c03_case := CaseCB (c : cb_case) | CaseE2E (c : e2e_case) | CaseFRS (c : frs_case)
-                    | CaseEARLEY (c : earley_case) | CaseCNFG (c : cnfg_case) | CaseCNFGL (c : cnfg_case) | CaseCYK (c : cyk_case) | CasePARSE (c : parse_case).
+                    | CaseEARLEY (c : earley_case) | CaseCNFG (c : cnfg_case) | CaseCNFGL (c : cnfg_case) | CaseCYK (c : cyk_case) | CasePARSE (c : parse_case)
+                    | CaseCLOSURE (c : cnfg_case).
 Definition c03_check (c : c03_case) : bool :=
   match c with CaseCB x => cb_check x | CaseE2E x => e2e_check x | CaseFRS x => frs_check x
              | CaseEARLEY x => earley_check x | CaseCNFG x => cnfg_check x | CaseCNFGL x => cnfg_check_lenient x
-             | CaseCYK x => cyk_check x | CasePARSE x => parse_check x end.
+             | CaseCYK x => cyk_check x | CasePARSE x => parse_check x | CaseCLOSURE x => closure_case_check x end.
 
 (* C16 ------------------------------------------------------------------------------------ *)
 (* the symbolic transformer: callbacks on the listed rule names / terminal types build tagged nodes *)
